@@ -29,7 +29,7 @@ func init() {
 			schema.tokens(&dt)
 			for j := 0; j < 4 && i < n; j++ {
 				msg := genMessage(r, schema, md, []int{30, 60, 90, 100}[r.Intn(4)])
-				emit("c06.rt", strconv.Itoa((i*7+j)%32), locs[r.Intn(len(locs))], strings.Join(dt, " "), msgString(msg))
+				emit("c06.rt", strconv.Itoa((i*11+i/32)%32), locs[r.Intn(len(locs))], strings.Join(dt, " "), msgString(msg))
 				i++
 			}
 		}
